@@ -106,6 +106,43 @@ def step_entry_agreement(chk, drv, rid):
     chk.ob(rid, "progress reporting indexes the entries by the current step", ok, up if up is not None else D, "")
 
 
+def allocation_totals(chk, rid, drv):
+    """TaskAllocation(... global_client_index=i, total_clients=<element>.clients) in the allocation builder: the values the ramp-up slot of a client is computed from
+    (shared with C05)."""
+    b = _builder(drv)
+    L = [n for n in walk_body(b) if isinstance(n, ast.For) and is_self_attr(n.iter, "schedule")][0]
+    elem = L.target.id
+    tac = [n for n in ast.walk(L) if isinstance(n, ast.Call) and last_attr(n.func) == "TaskAllocation"]
+    if not tac:
+        raise AnchorMissing("TaskAllocation(...) in the allocation builder")
+    ta_init = drv.methods(drv.cls("TaskAllocation"))["__init__"]
+    bd = source.bind_args(tac[0], ta_init)
+    cl = source.enclosing(tac[0], ast.For)
+    i = cl.target.id if cl is not None and isinstance(cl.target, ast.Name) else None
+    chk.ob(rid, "allocation: total clients == the schedule element's client count", u(bd.get("total_clients")) == f"{elem}.clients", tac[0], f"total_clients={u(bd.get('total_clients'))}",
+           key="esrally/driver/driver.py:Allocator.allocations:total-clients")
+    chk.ob(rid, "allocation: global client index == the element-wide client index", i is not None and u(bd.get("global_client_index")) == i, tac[0], f"global_client_index={u(bd.get('global_client_index'))}",
+           key="esrally/driver/driver.py:Allocator.allocations:global-index")
+
+
+def joinpoint_lists_reset(chk, rid, drv):
+    """The two client lists handed to a schedule element's closing JoinPoint (clients of the completing task / of `any` tasks) are fresh empty lists per element:
+    a list created outside the per-element loop makes every later join point inherit an earlier element's completing clients (shared with C01)."""
+    b = _builder(drv)
+    L = [n for n in walk_body(b) if isinstance(n, ast.For) and is_self_attr(n.iter, "schedule")][0]
+    jpc = [n for n in ast.walk(L) if isinstance(n, ast.Call) and last_attr(n.func) == "JoinPoint"]
+    if not jpc or len(jpc[0].args) < 3:
+        raise AnchorMissing("JoinPoint(id, completing clients, any-completing clients) in the per-element loop of the allocation builder")
+    inner = [n for n in L.body if isinstance(n, ast.For)]
+    for a in jpc[0].args[1:3]:
+        lst = u(a)
+        ini = [n for n in L.body if isinstance(n, ast.Assign) and u(n.targets[0]) == lst and isinstance(n.value, ast.List) and not n.value.elts]
+        ok = len(ini) == 1 and bool(inner) and L.body.index(ini[0]) < L.body.index(inner[0])
+        chk.ob(rid, f"join-point client list `{lst}` starts empty for each schedule element", ok, ini[0] if ini else L,
+               "" if ok else "not re-created inside the per-element loop: later join points inherit the completing clients of an earlier element",
+               key=f"esrally/driver/driver.py:Allocator.allocations:fresh-list:{jpc[0].args[1:3].index(a)}")
+
+
 def run(chk):
     repo = chk.repo
     drv, trk = repo.module(_D), repo.module(_T)
@@ -221,9 +258,7 @@ def run(chk):
     ok = len(jpa) == 2 and jpa[0] in flags and jpa[1] in flags and flags[jpa[0]][0] == [f"{sub}.completes_parent"] and f"{sub}.any_completes_parent" in flags[jpa[1]][0] \
         and flags[jpa[0]][1] == physd and flags[jpa[1]][1] == physd
     chk.ob("O2.7", "completing / any-completing clients recorded by physical index under the sub-task's own flag", ok, rec[0] if rec else CL, f"{flags}")
-    for lst in jpa:
-        ini = [n for n in L.body if isinstance(n, ast.Assign) and u(n.targets[0]) == lst and isinstance(n.value, ast.List) and not n.value.elts]
-        chk.ob("O2.7", f"{lst} starts empty for each schedule element", len(ini) == 1 and L.body.index(ini[0]) < L.body.index(SL), ini[0] if ini else L, "")
+    joinpoint_lists_reset(chk, "O2.7", drv)
     AL2 = drv.cls("Allocator")
     clf = drv.methods(AL2).get("clients")
     ok = False
@@ -352,6 +387,20 @@ def run(chk):
     pinit = trk.methods(PA).get("__init__")
     cached = [n for n in walk_body(pinit) if isinstance(n, (ast.Assign, ast.AugAssign)) and any(isinstance(x, ast.Attribute) and x.attr == "clients" and not is_self_attr(x) for x in ast.walk(n.value))]
     chk.ob("O2.6", "no client sum cached at construction", not cached, cached[0] if cached else pinit, "")
+    # the explicit value is the one given at construction: no method of the class (or anything else in the package) rewrites it
+    expl_attr = u(expl[0].value).split(".", 1)[1] if pc is not None and expl else None
+    if expl_attr:
+        wr = []
+        for m_ in repo.all_modules():
+            for n in ast.walk(m_.tree):
+                tg = n.targets if isinstance(n, ast.Assign) else ([n.target] if isinstance(n, (ast.AugAssign, ast.AnnAssign)) else [])
+                for t in tg:
+                    for x in ast.walk(t):
+                        if isinstance(x, ast.Attribute) and x.attr == expl_attr and isinstance(x.ctx, ast.Store):
+                            wr.append((m_, n))
+        bad = [(m_, n) for m_, n in wr if not (source.enclosing_func(n) is pinit)]
+        chk.ob("O2.6", f"the explicit client count (`{expl_attr}`) is written only at construction", bool(wr) and not bad, bad[0][1] if bad else pinit,
+               "" if not bad else f"rewritten in {bad[0][0].relpath}:{source.qualname(bad[0][1])}: `{short(bad[0][1], 60)}`", key=f"esrally/track/track.py:Parallel:{expl_attr}:writers")
 
 
 from sa.selftest import V  # noqa: E402
